@@ -27,7 +27,89 @@ pub fn panic_message(e: &(dyn std::any::Any + Send)) -> String {
     msg.lines().next().unwrap_or("").chars().take(100).collect()
 }
 
+// ---------------------------------------------------------------------------------------------
+// Watchdog: a lexer call that does not return (an endless loop inside one scanner is invisible to
+// the iteration budget of hook H1, which counts main-loop iterations only) must not hang the
+// engine. Every thread publishes "lexing since t, input at p/len" in its slot; a watchdog thread
+// scans the slots and, when one call exceeds HANG_SECS, writes the input to the hang file and
+// ends the process with exit code 3 (the stuck thread cannot be stopped any other way).
+
+pub const HANG_SECS: u64 = 30;
+pub const HANG_EXIT_CODE: i32 = 3;
+
+struct Slot {
+    since_ms: std::sync::atomic::AtomicU64,
+    ptr: std::sync::atomic::AtomicUsize,
+    len: std::sync::atomic::AtomicUsize,
+}
+
+static SLOTS: std::sync::Mutex<Vec<std::sync::Arc<Slot>>> = std::sync::Mutex::new(Vec::new());
+static HANG_FILE: std::sync::OnceLock<String> = std::sync::OnceLock::new();
+static T0: std::sync::OnceLock<std::time::Instant> = std::sync::OnceLock::new();
+
+fn now_ms() -> u64 {
+    T0.get_or_init(std::time::Instant::now).elapsed().as_millis() as u64 + 1
+}
+
+/// Start the watchdog (once per process); `hang_file` receives a JSON object {"input": ...}.
+pub fn start_watchdog(hang_file: &str) {
+    use std::sync::atomic::Ordering::SeqCst;
+    if HANG_FILE.set(hang_file.to_string()).is_err() {
+        return;
+    }
+    let _ = now_ms();
+    std::thread::spawn(|| loop {
+        std::thread::sleep(std::time::Duration::from_millis(500));
+        let now = now_ms();
+        let slots: Vec<std::sync::Arc<Slot>> = SLOTS.lock().map(|g| g.clone()).unwrap_or_default();
+        for s in &slots {
+            let since = s.since_ms.load(SeqCst);
+            if since != 0 && now.saturating_sub(since) > HANG_SECS * 1000 {
+                let (p, l) = (s.ptr.load(SeqCst), s.len.load(SeqCst));
+                // the owning thread is stuck inside the lexer call that borrows this text
+                let bytes = unsafe { std::slice::from_raw_parts(p as *const u8, l) };
+                let input = String::from_utf8_lossy(bytes).to_string();
+                if s.since_ms.load(SeqCst) != since {
+                    continue; // it returned in the meantime
+                }
+                let doc = serde_json::json!({"input": input, "seconds": HANG_SECS});
+                if let Some(f) = HANG_FILE.get() {
+                    let _ = std::fs::write(f, doc.to_string());
+                }
+                eprintln!("HANG: the lexer did not return within {HANG_SECS} s on an input of {l} bytes");
+                std::process::exit(HANG_EXIT_CODE);
+            }
+        }
+    });
+}
+
+thread_local! {
+    static MY_SLOT: std::sync::Arc<Slot> = {
+        let s = std::sync::Arc::new(Slot {
+            since_ms: std::sync::atomic::AtomicU64::new(0),
+            ptr: std::sync::atomic::AtomicUsize::new(0),
+            len: std::sync::atomic::AtomicUsize::new(0),
+        });
+        if let Ok(mut g) = SLOTS.lock() {
+            g.push(s.clone());
+        }
+        s
+    };
+}
+
 pub fn run_lexer(src: &str) -> Outcome {
+    use std::sync::atomic::Ordering::SeqCst;
+    MY_SLOT.with(|s| {
+        s.ptr.store(src.as_ptr() as usize, SeqCst);
+        s.len.store(src.len(), SeqCst);
+        s.since_ms.store(now_ms(), SeqCst);
+    });
+    let out = run_lexer_inner(src);
+    MY_SLOT.with(|s| s.since_ms.store(0, SeqCst));
+    out
+}
+
+fn run_lexer_inner(src: &str) -> Outcome {
     match panic::catch_unwind(AssertUnwindSafe(|| lex_program(&src))) {
         Ok(Ok(r)) => Outcome::Ok(r),
         Ok(Err(e)) => Outcome::Refused(format!("{e:?}")),
